@@ -7,7 +7,7 @@
    (ObjectAlignmenter::Check), fewer than 2^32 columns in one call. *)
 From Coq Require Import ZArith List Bool.
 From MomoCommon Require Import GenPrelude.
-From C18 Require Gen_Vertices Gen_Ceil Gen_List Gen_Raw Gen_Bits Model Layout Fill Vertices Bits Inv Main RawLife RawGen Static.
+From C18 Require Gen_Vertices Gen_Ceil Gen_List Gen_Raw Gen_Bits Gen_Mut Model Layout Fill Vertices Bits Inv Main RawLife RawGen Static.
 Import ListNotations.
 Local Open Scope Z_scope.
 
@@ -371,6 +371,20 @@ Theorem C18_generated_GetBit_iff_added_mutable :
        exists r, In r (Model.columns (Model.run_f L keep ops)) /\ Model.r_off r = o /\ Model.r_mut r = true).
 Proof. exact Main.reachable_generated_GetBit. Qed.
 Print Assumptions C18_generated_GetBit_iff_added_mutable.
+
+(* round 7: the GENERATED IsMutable member (MOMO_ASSERT(offset < mTotalSize) -> Stuck, then the generated GetBit on
+   mMutableOffsets.GetItems()) on every reachable state: at a column's offset the assertion holds and the answer is whether the
+   column was added as mutable; at any offset inside the row it is true only at mutable columns *)
+Theorem C18_generated_IsMutable :
+  forall L keep, 4 <= L <= 15 -> forall ops, Forall (fun op => Inv.group_ok (snd op)) ops ->
+    let st := Model.run_f L keep ops in
+    (forall r, In r (Model.columns st) ->
+       Gen_Mut.IsMutable Gen_Bits.GetBit (Model.totalSize st) (Model.mutBytes st) (Model.r_off r) = Ok (Model.r_mut r)) /\
+    (forall o, 0 <= o < Model.totalSize st -> exists b,
+       Gen_Mut.IsMutable Gen_Bits.GetBit (Model.totalSize st) (Model.mutBytes st) o = Ok b /\
+       (b = true -> exists r, In r (Model.columns st) /\ Model.r_off r = o /\ Model.r_mut r = true)).
+Proof. exact Main.reachable_generated_IsMutable. Qed.
+Print Assumptions C18_generated_IsMutable.
 
 (* round 6: the cxx2coq translation of the real pvCreateRaw (try_catch mode: the funcIndex loop, a createFunc call that throws
    according to ANY per-call schedule P, the catch block's destroy loop below funcIndex, `throw;`) on a list of n <= 65536
